@@ -162,7 +162,10 @@ class QRun:
         case = self.case
         ccfg = {}
         if case["psk"]:
-            e["store"].tickets.update(e["server_tickets"])       # the fetcher pops a ticket when it is used
+            e["store"].tickets.clear()
+            if case["psk"] == 1:
+                e["store"].tickets.update(e["server_tickets"])   # the fetcher pops a ticket when it is used
+            # psk == 2: the client offers a ticket the server does not know: offered, NOT selected -> full handshake
             kw["ticket_store"] = e["store"]
             ccfg["session_ticket"] = e["client_ticket"]
         if self.client and not case.get("verify", 1):
@@ -321,7 +324,7 @@ class QRun:
 
     def _fields_case(self):
         c = self.case
-        return {"role": c["role"], "psk": 1 if c["psk"] else 0, "early": qenv()["early"] if c["psk"] else 0}
+        return {"role": c["role"], "psk": int(c["psk"]), "early": qenv()["early"] if c["psk"] else 0}
 
     # ---- observation of the victim ----------------------------------------------------------------------------
     def _qcounts(self):
@@ -540,7 +543,7 @@ def _rfc_walk(case, msgs):
             if st == T.C_SH:
                 st = T.C_EE
             elif st == T.C_EE:
-                st = T.C_FIN if case["psk"] else T.C_CR_CERT
+                st = T.C_FIN if case["psk"] == 1 else T.C_CR_CERT
             elif st == T.C_CR_CERT:
                 st = T.C_CERT if name == "CR" else T.C_CV
             elif st == T.C_CERT:
@@ -553,8 +556,8 @@ def _rfc_walk(case, msgs):
                 cert_var = var
         else:
             if st == T.S_CH:
-                st = T.S_CERT if case.get("reqcert") and not case["psk"] else T.S_FIN
-                if case.get("reqcert") and case["psk"]:
+                st = T.S_CERT if case.get("reqcert") and case["psk"] != 1 else T.S_FIN
+                if case.get("reqcert") and case["psk"] == 1:
                     st = T.S_CERT           # quirk 1 of docs/C11.md: the flag wins over resumption
             elif st == T.S_CERT:
                 st = T.S_FIN if var == "empty" else T.S_CV
@@ -568,7 +571,7 @@ def _rfc_walk(case, msgs):
 def q_oracle(case):
     r = qtrace(case)
     client = case["role"] == "client"
-    sig = {"level": "quic", "role": case["role"], "psk": int(bool(case["psk"]))}
+    sig = {"level": "quic", "role": case["role"], "psk": int(case["psk"])}
     if r.error and not r.packets:
         return None
     st, bad_at, why, wrong = _rfc_walk(case, r.msgs_seen)
@@ -736,7 +739,7 @@ def gen_client(ctx):
             # one message in a wrong packet type
             for i in range(len(w)):
                 for wrong in ("initial", "1rtt"):
-                    if not ctx.thorough and len(w) > 3 and rng.random() < 0.75:
+                    if not ctx.thorough and (len(w) > 3 and rng.random() < 0.8 or len(w) == 3 and rng.random() < 0.4):
                         continue
                     eps = list(right)
                     eps[i] = wrong
@@ -759,6 +762,12 @@ def gen_client(ctx):
         if not psk:
             cases.append(client_qcase(0, _runs(with_cr, _right_epoch(with_cr), rng)))
             cases.append(client_qcase(0, _runs(with_cr, ["initial"] * 5, rng)))
+    # PSK offered but NOT selected by the server: the full flight is required, the PSK flight must be refused
+    fullf = ["EE", "CERT", "CV", "FIN"]
+    for w in (fullf, ["EE", "FIN"], ["EE", "CERT", "FIN"], ["EE", "CV", "FIN"], ["EE", "CR", "CERT", "CV", "FIN"], ["EE", "EE"], ["FIN"]):
+        cases.append(client_qcase(2, _runs(w, _right_epoch(w))))
+        cases.append(client_qcase(2, _runs(w, _right_epoch(w), rng)))
+        cases.append(client_qcase(2, _runs(w, ["initial"] * len(w))))
     # a message split ACROSS encryption levels: the first bytes in one CRYPTO stream, the rest in another
     for psk in (0, 1):
         f = full[psk]
@@ -775,11 +784,17 @@ def gen_client(ctx):
                         for pack in (1, 3):
                             if n == 1 and (order or ov or pack > 1):
                                 continue
+                            if not ctx.thorough and pack == 3 and (dup or ov):
+                                continue
                             cases.append(client_qcase(psk, [dict(_op(f, "handshake"), n=n, order=order, dup=dup, ov=ov, pack=pack)]))
     # the bounds: offset + length <= 2^62 - 1, MAX_PENDING_CRYPTO, MAX_HANDSHAKE_MESSAGE_SIZE
     for psk in (0, 1):
         f = full[psk]
         for far in (524287, 524288, -1):
+            if far == 524287 and not ctx.thorough:      # a 512 KiB gap costs 0.6 s per case in the extracted model
+                if psk == 0:
+                    cases.append(client_qcase(0, [{"m": [], "ep": "handshake", "far": far}] + _runs(f, _right_epoch(f))))
+                continue
             for ep in ("initial", "handshake"):
                 cases.append(client_qcase(psk, [{"m": [], "ep": ep, "far": far}] + _runs(f, _right_epoch(f))))
             cases.append(client_qcase(psk, _runs(f[:1], ["handshake"]) + [{"m": [], "ep": "handshake", "far": far}] + _runs(f[1:], _right_epoch(f[1:]))))
@@ -843,9 +858,17 @@ def gen_server(ctx):
                             eps = ["handshake"] * len(w)
                             eps[i] = wrong
                             cases.append(server_qcase(psk, req, _runs(names, eps, None, vs)))
+    for req in (0, 1):          # a client that offers a ticket the server victim does not know
+        for w in ([["FIN", "good"]], [["CERT", "good"], ["CV", "good"], ["FIN", "good"]], [["CERT", "empty"], ["FIN", "good"]],
+                  [["CV", "good"], ["FIN", "good"]], [["FIN", "badmac"]]):
+            names, vs = [x[0] for x in w], [x[1] for x in w]
+            cases.append(server_qcase(2, req, _runs(names, ["handshake"] * len(w), None, vs)))
+            cases.append(server_qcase(2, req, _runs(names, ["initial"] * len(w), rng, vs)))
     for psk in (0, 1):
         for far in (524287, 524288, -1):
             for ep in ("initial", "handshake"):
+                if far == 524287 and not ctx.thorough and (psk or ep == "initial"):
+                    continue
                 cases.append(server_qcase(psk, 0, [{"m": [], "ep": ep, "far": far}, _op(["FIN"], "handshake")]))
         for big in ("BIG", "BIGOK"):
             cases.append(server_qcase(psk, 0, [_op([big], "handshake"), _op(["FIN"], "handshake")]))
